@@ -1,0 +1,18 @@
+//go:build verif
+
+// Contracts for the govc verifier (/verif). Comment-only: this file contains no code.
+package main
+
+//@ func logRoutes
+//@   trusted
+//@   assigns nothing
+//@
+//@ // ---- C01 / C02: one iteration of the update loop --------------------------------------------------
+//@ // the candidate text is the service configuration followed by the manual (KV) configuration; the active
+//@ // table changes only to a table built from exactly that text; a rejected text changes nothing and the loop goes on
+//@ func watchBackend
+//@   props C01 C02
+//@   requires cfg != nil
+//@   assigns *
+//@   loop 2 invariant tableBuffer != nil
+//@   loop 2 iteration ensures (activeTable == old(activeTable) && lastTable == old(lastTable)) || (activeTable != nil && builtFrom[activeTable] == svccfg + "\n" + mancfg && lastTable == svccfg + "\n" + mancfg)
